@@ -41,7 +41,10 @@ GuardCRLF(decs, max) ==
   Cross3(decs, << << max - 8, 8 >>, << max - 8, 9 >>, << max, 1 >>, << max - 16, 17 >>, << max - 16, 16 >> >>, << "end", "start", "middle" >>,
          LAMBDA p, nk, pos : [op |-> "TextGuard", pkg |-> p[1], fn |-> p[2], n |-> nk[1], crlf |-> nk[2], crlfpos |-> pos])
 GuardCRLFVecs == GuardCRLF(SubSeq(Decs, 1, 4), (10485760 * 8 + 4) \div 5) \o GuardCRLF(SubSeq(Decs, 5, 6), ((10485760 + 2) \div 3) * 4)
-Vecs == GuardCRLFVecs \o ChunkVecs \o EncVecs \o DecValid \o DecCross \o DecMal \o MutVecs \o GuardVecs
+\* decoded results kept while further strings (of other lengths) are decoded
+ChainVecs == SeqMap(LAMBDA p : [op |-> "Chain", fn |-> p[2], kind |-> "textdec", cls |-> p[1] \o "." \o p[2],
+                                items |-> SeqMap(LAMBDA n : [pkg |-> p[1], fn |-> p[2], in |-> EncOf(p, Rnd(Seed, n, n + 40))], << 10, 3, 25, 10, 1, 64, 5, 32, 100, 7 >>)], Decs)
+Vecs == ChainVecs \o GuardCRLFVecs \o ChunkVecs \o EncVecs \o DecValid \o DecCross \o DecMal \o MutVecs \o GuardVecs
 VARIABLE done
 Init == done = FALSE
 Next == ~done /\ ndJsonSerialize(OutFile, Vecs) /\ PrintT(<< "GENERATED", Len(Vecs) >>) /\ done' = TRUE
